@@ -296,7 +296,12 @@ def check(ctx, res, shape, entry, with_successor, replay):
                               'after the stop'.format(desc, e[:3]), replay)
                 return False
     if entry == 'stop_all':
-        if res.get('successor_after_stop') or res.get('has_jobs'):
+        # anything *started* after stop-all (a successor that was already
+        # running when stop-all arrived is the current job and is stopped; it
+        # may still finish the instruction in progress)
+        started_after = SUCCESSOR_LOG[0] in (res.get('successor_after_stop')
+                                             or [])
+        if started_after or res.get('has_jobs'):
             ctx.violation('e:stop-all-leaves-work',
                           '{}: after stop-all successor events {} has_jobs={}'
                           .format(desc, res.get('successor_after_stop'),
